@@ -15,5 +15,13 @@ var curT *testing.T
 // Deadlock and leaked-goroutine panics propagate to the caller, which recovers
 // them.
 func runBubble(f func()) {
+	if wdReset != nil {
+		wdReset()
+	}
 	synctest.Test(curT, func(t *testing.T) { f() })
 }
+
+// wdReset re-arms the wall-clock watchdog; set by the worker. The watchdog
+// budget is per bubble (a busy loop lives inside one bubble), so that long
+// multi-schedule runs on a loaded machine do not trip it.
+var wdReset func()
